@@ -335,6 +335,10 @@ class Gen:
             self.w("%s  else if(op == \"p\") { %s.clear(); for(std::size_t j_ = 0; j_ < v_.size(); j_++) %s.push_back(v_[j_]); }" % (pad, dv, dv))
             self.w("%s  else if(op == \"i\") { %s.clear(); %s.insert(%s.end(), v_.begin(), v_.end()); }" % (pad, dv, dv, dv))
             self.w("%s  else if(op == \"s\") { std::string s_(b_.begin(), b_.end()); %s.assign_string(s_.c_str()); }" % (pad, dv))
+            # growing forms that take a value: resize(count, value), insert(pos, count, value), insert(pos, value)
+            self.w("%s  else if(op == \"v\") { %s.clear(); %s.resize(static_cast<typename decltype(%s)::size_type>(v_.size()), v_.empty() ? %s() : v_[0]); }" % (pad, dv, dv, dv, E))
+            self.w("%s  else if(op == \"c\") { %s.clear(); %s.insert(%s.end(), static_cast<typename decltype(%s)::size_type>(v_.size()), v_.empty() ? %s() : v_[0]); }" % (pad, dv, dv, dv, dv, E))
+            self.w("%s  else if(op == \"1\") { %s.clear(); for(std::size_t j_ = 0; j_ < v_.size(); j_++) %s.insert(%s.end(), v_[j_]); }" % (pad, dv, dv, dv))
             self.w("%s  else o.err(\"bad data op\");" % pad)
             if cur:
                 self.w("%s  %s.%s(sbepp::cursor_ops::skip(c));" % (pad, v, d.name))
